@@ -91,7 +91,9 @@ def run_tlc(module, cfg, workdir, workers=1, env=None, timeout=3600, simulate=No
     e = dict(os.environ)
     if env:
         e.update(env)
-    for attempt in (1, 2):
+    for attempt in (1, 2, 3):
+        if attempt > 1:
+            time.sleep(2 * attempt)
         try:
             p = subprocess.run(cmd, cwd=SPEC, env=e, stdout=subprocess.PIPE, stderr=subprocess.STDOUT,
                                timeout=timeout, text=True, errors="replace")
